@@ -164,3 +164,81 @@ Proof.
       by (rewrite Hpre; reflexivity).
     apply images_embedded. rewrite nth_error_app1; [exact Hn|]. apply nth_error_Some. congruence.
 Qed.
+
+(* ---- which tags the builder retains ------------------------------------------------------------- *)
+Fixpoint run_calls (b : builder) (calls : list (N * list byte)) : res builder :=
+  match calls with
+  | [] => Val b
+  | (slot, img) :: r => b' <- builder_call b slot img ;; run_calls b' r
+  end.
+
+Definition is_custom_img (img : list byte) : bool :=
+  match tagtype_of_u32 (tag_typ_of img) with Custom _ => true | _ => false end.
+Definition repeatable (slot : N) : bool := (slot =? 3) || (slot =? 13) || (slot =? 22).
+
+Definition imgs_of (slot : N) (calls : list (N * list byte)) : list (list byte) :=
+  map snd (filter (fun c => fst c =? slot) calls).
+Definition last_of (slot : N) (calls : list (N * list byte)) : option (list byte) :=
+  match rev (imgs_of slot calls) with x :: _ => Some x | [] => None end.
+
+Lemma imgs_of_cons slot s img r :
+  imgs_of slot ((s, img) :: r) = if s =? slot then img :: imgs_of slot r else imgs_of slot r.
+Proof. unfold imgs_of. cbn [filter fst]. destruct (s =? slot); reflexivity. Qed.
+
+Lemma last_of_cons slot s img r :
+  last_of slot ((s, img) :: r) = match last_of slot r with Some x => Some x | None => if s =? slot then Some img else None end.
+Proof.
+  unfold last_of. rewrite imgs_of_cons. destruct (s =? slot).
+  - cbn [rev]. destruct (rev (imgs_of slot r)) as [|x l]; reflexivity.
+  - destruct (rev (imgs_of slot r)) as [|x l]; reflexivity.
+Qed.
+
+Lemma run_calls_spec : forall calls b,
+  (forall img, In (22, img) calls -> is_custom_img img = true) ->
+  exists b', run_calls b calls = Val b' /\
+    b_modules b' = b_modules b ++ imgs_of 3 calls /\
+    b_smbios b' = b_smbios b ++ imgs_of 13 calls /\
+    b_custom b' = b_custom b ++ imgs_of 22 calls /\
+    (forall k, repeatable k = false ->
+       get_slot (b_single b') k = match last_of k calls with Some x => Some x | None => get_slot (b_single b) k end).
+Proof.
+  induction calls as [|[s img] r IH]; intros b Hc.
+  - exists b. cbn [run_calls]. unfold imgs_of, last_of. cbn. rewrite !app_nil_r. repeat split; reflexivity.
+  - cbn [run_calls]. unfold builder_call.
+    assert (Hc' : forall img0, In (22, img0) r -> is_custom_img img0 = true) by (intros i Hi; apply Hc; right; exact Hi).
+    destruct (s =? 3) eqn:E3; [|destruct (s =? 13) eqn:E13; [|destruct (s =? 22) eqn:E22]].
+    + apply N.eqb_eq in E3. subst s. cbn [bind].
+      destruct (IH {| b_single := b_single b; b_modules := b_modules b ++ [img]; b_smbios := b_smbios b; b_custom := b_custom b |} Hc')
+        as (b' & E & A & B & C & D). exists b'. split; [exact E|].
+      cbn [b_modules b_smbios b_custom b_single] in *. rewrite !imgs_of_cons.
+      change (3 =? 3) with true. change (3 =? 13) with false. change (3 =? 22) with false. cbv iota.
+      rewrite A, <- app_assoc. split; [reflexivity|]. split; [exact B|]. split; [exact C|].
+      intros k Hk. rewrite D by exact Hk. rewrite last_of_cons.
+      destruct (N.eqb_spec 3 k) as [<-|]; [discriminate Hk|]. destruct (last_of k r); reflexivity.
+    + apply N.eqb_eq in E13. subst s. cbn [bind].
+      destruct (IH {| b_single := b_single b; b_modules := b_modules b; b_smbios := b_smbios b ++ [img]; b_custom := b_custom b |} Hc')
+        as (b' & E & A & B & C & D). exists b'. split; [exact E|].
+      cbn [b_modules b_smbios b_custom b_single] in *. rewrite !imgs_of_cons.
+      change (13 =? 3) with false. change (13 =? 13) with true. change (13 =? 22) with false. cbv iota.
+      rewrite B, <- app_assoc. split; [exact A|]. split; [reflexivity|]. split; [exact C|].
+      intros k Hk. rewrite D by exact Hk. rewrite last_of_cons.
+      destruct (N.eqb_spec 13 k) as [<-|]; [discriminate Hk|]. destruct (last_of k r); reflexivity.
+    + apply N.eqb_eq in E22. subst s.
+      specialize (Hc img (or_introl eq_refl)). unfold is_custom_img in Hc.
+      destruct (tagtype_of_u32 (tag_typ_of img)); try discriminate Hc. cbn [bind].
+      destruct (IH {| b_single := b_single b; b_modules := b_modules b; b_smbios := b_smbios b; b_custom := b_custom b ++ [img] |} Hc')
+        as (b' & E & A & B & C & D). exists b'. split; [exact E|].
+      cbn [b_modules b_smbios b_custom b_single] in *. rewrite !imgs_of_cons.
+      change (22 =? 3) with false. change (22 =? 13) with false. change (22 =? 22) with true. cbv iota.
+      rewrite C, <- app_assoc. split; [exact A|]. split; [exact B|]. split; [reflexivity|].
+      intros k Hk. rewrite D by exact Hk. rewrite last_of_cons.
+      destruct (N.eqb_spec 22 k) as [<-|]; [discriminate Hk|]. destruct (last_of k r); reflexivity.
+    + cbn [bind].
+      destruct (IH {| b_single := set_slot (b_single b) s img; b_modules := b_modules b; b_smbios := b_smbios b; b_custom := b_custom b |} Hc')
+        as (b' & E & A & B & C & D). exists b'. split; [exact E|].
+      cbn [b_modules b_smbios b_custom b_single] in *. rewrite !imgs_of_cons. rewrite E3, E13, E22.
+      split; [exact A|]. split; [exact B|]. split; [exact C|].
+      intros k Hk. rewrite D by exact Hk. rewrite last_of_cons.
+      destruct (last_of k r) as [x|]; [reflexivity|].
+      destruct (N.eqb_spec s k) as [->|Hne]; [apply get_set_same|apply get_set_other; congruence].
+Qed.
